@@ -12,13 +12,14 @@
 #include "w2c2_base.h"
 #include "gm.h"
 void trap(Trap t) { fprintf(stderr, "trap %d\n", (int)t); abort(); }
-U32 wasmMemoryAtomicWait(wasmMemory* m, U32 a, U64 e, I64 t, bool w) { (void)m; (void)a; (void)e; (void)t; (void)w; return 0; }
-U32 wasmMemoryAtomicNotify(wasmMemory* m, U32 a, U32 c) { (void)m; (void)a; (void)c; return 0; }
+/* the real futex library is linked: wait / notify / atomic instructions of OTHER threads run while this memory is being grown */
 #define MAXT 16
 #define MAXOPS 4096
 typedef struct { unsigned long long c, r; int op; unsigned arg, res; } Op;   /* op: 0 grow 1 size 2 store 3 load; 4 first load of a private cell
    in a page the thread has observed but never written (arg = page, must read 0: new pages are zeroed), 5 store to / 6 load from the private
-   cell of an observed page (5: arg = value, res = page; 6: arg = expected value, res = loaded value) */
+   cell of an observed page (5: arg = value, res = page; 6: arg = expected value, res = loaded value);
+   7 memory.atomic.wait32 with timeout 0 on a private cell (arg = 1 if the expected value equals the cell, res = return code: must be 2 / 1);
+   8 memory.atomic.notify on a private cell nobody waits on (res must be 0); 9 i32.atomic.rmw.add 1 on the shared counter at address 32 (res = old) */
 #define MAXPG 256
 static Op ops[MAXT][MAXOPS]; static int nops[MAXT];
 static unsigned long long seqc; static gmInstance parent; static gmInstance* child[MAXT];
@@ -36,7 +37,13 @@ static void* run(void* p) {
   int t = (int)(long)p; unsigned i; unsigned mine = 64u + (unsigned)t * 256u, last = 0; int stored = 0;
   unsigned observed = initPages; static __thread unsigned hval[MAXPG]; static __thread unsigned char hstate[MAXPG];  /* 0 untouched, 1 read as zero, 2 written */
   tid = t; rng = gseed * 0x9E3779B97F4A7C15ULL + ((unsigned long long)t + 1) * 0xD1B54A32D192ED03ULL; if (!rng) rng = 1;
-  for (i = 0; i < opsPer && nops[t] < MAXOPS; i++) { Op* o = &ops[t][nops[t]++]; unsigned k = rnd() % 13;
+  for (i = 0; i < opsPer && nops[t] < MAXOPS; i++) { Op* o = &ops[t][nops[t]++]; unsigned k = rnd() % 16;
+    if (k >= 13) { unsigned wa = mine + 16u;
+      if (k == 13) { unsigned eq = rnd() % 2, cur = gm_load(child[t], wa); o->op = 7; o->arg = eq; o->c = __atomic_add_fetch(&seqc, 1, __ATOMIC_SEQ_CST);
+        o->res = gm_wait0(child[t], wa, eq ? cur : cur + 1u + rnd() % 5u); o->r = __atomic_add_fetch(&seqc, 1, __ATOMIC_SEQ_CST); if (rnd() % 3 == 0) gm_store(child[t], wa, rnd()); }
+      else if (k == 14) { o->op = 8; o->arg = 1u + rnd() % 3u; o->c = __atomic_add_fetch(&seqc, 1, __ATOMIC_SEQ_CST); o->res = gm_notify(child[t], wa, o->arg); o->r = __atomic_add_fetch(&seqc, 1, __ATOMIC_SEQ_CST); }
+      else { o->op = 9; o->arg = 1; o->c = __atomic_add_fetch(&seqc, 1, __ATOMIC_SEQ_CST); o->res = gm_aadd(child[t], 32u, 1u); o->r = __atomic_add_fetch(&seqc, 1, __ATOMIC_SEQ_CST); }
+      continue; }
     if (k >= 10) { /* frontier accesses: only pages this thread itself has observed to exist (own grow result or memory.size) */
       unsigned pg, addr;
       if (observed <= initPages || observed > MAXPG) { k = rnd() % 10; }
@@ -64,7 +71,7 @@ int main(int argc, char** argv) {
   gseed = seed;
   for (t = 0; t < nthreads; t++) pthread_create(&th[t], NULL, run, (void*)(long)t);
   for (t = 0; t < nthreads; t++) pthread_join(th[t], NULL);
-  printf("INIT pages=%u max=%u final=%u threads=%u\n", initPages, maxPages, gm_size(&parent), nthreads);
+  printf("INIT pages=%u max=%u final=%u threads=%u counter=%u\n", initPages, maxPages, gm_size(&parent), nthreads, gm_load(&parent, 32u));
   for (t = 0; t < nthreads; t++) for (k = 0; k < nops[t]; k++) printf("O %u %llu %llu %d %u %u\n", t, ops[t][k].c, ops[t][k].r, ops[t][k].op, ops[t][k].arg, ops[t][k].res);
   printf("DONE\n");
   return 0;
